@@ -261,6 +261,12 @@ def run(check):
                          "leaf.yaml": wf("Item", [], leaf=True)},
         "cycle": {"workflow.yaml": wf("RootObject", ["a.yaml", "b.yaml"]), "a.yaml": wf("Item", ["b.yaml"]), "b.yaml": wf("Item", ["a.yaml"])},
     }
+    # texts that must always be refused whatever order their properties are visited in: a default that is not a JSON document
+    # next to properties without default, in the input section and in an explicit output schema
+    BODY = 'steps:\n  w: {plugin: {src: leaf_w, deployment_type: scripted}, input: {tag: !expr "$.input.tag"}}\noutputs:\n  success: {t: !expr "$.steps.w.outputs.success.tag"}\n'
+    PLAIN = ", ".join("p%d: {required: false, type: {type_id: string}}" % q for q in range(6))
+    diamonds["bad-default-in-input"] = {"workflow.yaml": "version: v0.2.0\ninput: {root: RootObject, objects: {RootObject: {id: RootObject, properties: {tag: {type: {type_id: string}}, %s, n: {required: false, default: five, type: {type_id: integer}}}}}}\n%s" % (PLAIN, BODY)}
+    diamonds["bad-default-in-output-schema"] = {"workflow.yaml": "version: v0.2.0\ninput: {root: RootObject, objects: {RootObject: {id: RootObject, properties: {tag: {type: {type_id: string}}}}}}\n%soutputSchema:\n  success:\n    schema: {root: R, objects: {R: {id: R, properties: {t: {type: {type_id: string}}, %s, n: {required: false, default: five, type: {type_id: integer}}}}}}\n" % (BODY, PLAIN)}
     engine_cases = []
     for name, files in sorted(diamonds.items()):
         for rep in range(check.pick(16, 48)):
@@ -279,7 +285,7 @@ def run(check):
         err = o["result"].get("parse_err") or o["result"].get("prepare_err")
         verdicts.setdefault(name, {}).setdefault("refused" if err else "accepted", []).append((case, (err or "")[:200]))
     for name, vs in sorted(verdicts.items()):
-        want = "refused" if name == "cycle" else "accepted"
+        want = "refused" if name == "cycle" or name.startswith("bad-") else "accepted"
         if len(vs) > 1 or want not in vs:
             other = [k for k in vs if k != want][0]
             check.report("verdict@engine-parse:%s" % name, "the tree %r parsed %d times through the engine entry point: %s (expected always %s); e.g. %s" % (
